@@ -34,9 +34,22 @@ class OwnedRandom:
         self.ncalls = 0
         self._saved = {}
         self.lib_only_audit = lib_only_audit
+        self.foreign = []  # generators created outside the owned stream: (caller, args)
 
     # -- context manager ---------------------------------------------------------------------
     def __enter__(self):
+        self._saved["default_rng"] = np.random.default_rng
+        tape = self
+
+        def default_rng(*a, **k):
+            f = sys._getframe(1)
+            tape.foreign.append((f"{f.f_code.co_filename}:{f.f_lineno}", a, k))
+            seed = a[0] if a else k.get("seed")
+            if seed is None:  # unseeded: OS entropy in real life; a fixed stream here so the rest of the execution stays deterministic
+                return np.random.Generator(np.random.PCG64(12345))
+            return tape._saved["default_rng"](*a, **k)  # seeded / pass-through forms (Generator, SeedSequence, ...) keep numpy semantics
+
+        np.random.default_rng = default_rng
         for n in _NAMES:
             if hasattr(np.random, n):
                 self._saved[n] = getattr(np.random, n)
